@@ -217,6 +217,13 @@ def one(ctx, rng, xr, ops, names):
             rec.skip(name, "batched call raised %s" % type(e).__name__)
             continue
         tie = (op.exact or op.peak or name in ("dp", "dm")) and ties(x, op)
+        missing_ = [d_ for d_ in lead if d_ not in getattr(R, "dims", lead)]
+        if missing_:
+            # one result per position is the least the statement asks for: a result that lost a non-spectral dimension
+            # has merged the spectra along it
+            rec.bad("single_vs_batched", key, {"op": name, "dims_in": x.dims, "dims_out": getattr(R, "dims", None), "lost": missing_},
+                    "result-lost-a-non-spectral-dimension")
+            continue
         # (1) per-position equality
         if lead:
             sample = allpos if len(allpos) <= 12 else [allpos[i] for i in rng.choice(len(allpos), 12, replace=False)]
